@@ -286,6 +286,12 @@ func txHistRun(sc *TxHistScenario) (res *txHistResult) {
 				}
 				noteSeen(i)
 				for x := range m.poolAt {
+					if _, conf := m.inBlock[x]; conf && !m.orphaned[x] {
+						// x was confirmed by a block processed while the node was not in sync (the code
+						// keeps such txs in its pool): it is not an unconfirmed transaction any more, so
+						// C05 asks nothing about it
+						continue
+					}
 					if x != i && sharesOutpoint(txs[x], txs[i]) {
 						m.pairs = append(m.pairs, [2]int{x, i})
 						flags["conflict-pair"] = true
